@@ -40,8 +40,8 @@ AdvOf(x) == IF x = "c" THEN AdvC ELSE AdvS
 ResolveCall(c) == IF "hx" \in DOMAIN c THEN [c EXCEPT !.h = c.hx]
                   ELSE IF "h" \in DOMAIN c THEN [c EXCEPT !.h = HL[@]] ELSE c
 FrameTokens(f) == IF "hx" \in DOMAIN f THEN f.hx ELSE HL[f.h]
-\* frames of the harness peer: its encoder uses the table size the model says a conforming peer uses
-ResolveFrame(f, ep) == IF "h" \in DOMAIN f THEN [f EXCEPT !.h = FrameTokens(f)] @@ [ets |-> ep.peerEnc] ELSE f
+\* frames of the harness peer (its encoder uses the table size the model says a conforming peer uses: H2!DecodeFailure)
+ResolveFrame(f, ep) == IF "h" \in DOMAIN f THEN [f EXCEPT !.h = FrameTokens(f)] ELSE f
 
 \* ---------------------------------------------------------------- constructors for scenario alphabets
 AH(sid, h, es)        == [t |-> "HEADERS", sid |-> sid, es |-> es, h |-> h, pr |-> <<>>, blk |-> "ok"]
@@ -172,7 +172,13 @@ Count(seq, P(_)) == Len(SelectSeq(seq, P))
 CallOutTokens == Call(Pre, ResolveCall(last.c)).ep.out
 
 \* C01/C13: between two deviation-free endpoints every delivery of the peer's frames is accepted
-P_C01_DeliveredSendsAccepted == (Pair /\ IsStep /\ last.a = "dlv" /\ AllClean) => ROk
+\* Exempt (C01): an endpoint that has itself already closed the connection, and everything after any endpoint closed it
+\* (frames sent to a closed peer).  Not demanded here (known finding sent_body_length_unchecked): the library lets an
+\* application send a body that contradicts the content-length it declared, and a header list larger than the peer's
+\* MAX_HEADER_LIST_SIZE (known finding sent_header_list_unchecked); the receiving side refuses both.
+P_C01_DeliveredSendsAccepted ==
+  (Pair /\ HasSrc /\ last.a = "dlv" /\ AllClean /\ \A x \in Roles : src[1][x].conn # "CLOSED")
+     => (ROk \/ last.p.r.c \in {"InvalidBodyLengthError", "DenialOfServiceError"})
 \* C13: the HPACK encoder context becomes unpredictable only through a marked failed-send deviation
 P_C13_CleanSendsDecode == \A x \in Roles : eps[x].hd => "failed_send_partial_state" \in eps[x].dev
 \* C02: no emitted DATA frame is larger than the peer's MAX_FRAME_SIZE in force when it was sent
@@ -193,7 +199,8 @@ P_C04_InboundDataExactlyAtWindow ==
   OneFrame("DATA") =>
      LET f == last.fs[1]
          fcl == FclOf(f)
-     IN /\ (Pre.conn # "CLOSED" /\ <<Pre.conn, "RECV_DATA">> \in DOMAIN ConnTable /\ fcl > Pre.iw.cur) => last.p.r.c = "FlowControlError"
+     IN /\ (Pre.conn # "CLOSED" /\ <<Pre.conn, "RECV_DATA">> \in DOMAIN ConnTable /\ fcl > 0 /\ fcl > Pre.iw.cur) => last.p.r.c = "FlowControlError"
+        /\ (fcl = 0) => last.p.r.c # "FlowControlError"
         /\ last.p.r.c = "FlowControlError" =>
              (fcl > Pre.iw.cur \/ (Has(Pre, f.sid) /\ fcl > Pre.streams[f.sid].iw.cur))
 \* C04: the connection window moves only by WINDOW_UPDATEs actually emitted and DATA actually received
@@ -235,6 +242,13 @@ P_C10_OutboundWithinPeerLimit ==
          n0 == CountOpen(Pre, par)
          n1 == CountOpen(Post, par)
      IN n1 > n0 => (~SHas(Pre.rs, 3) \/ SCur(Pre.rs, 3) < 0 \/ n1 <= SCur(Pre.rs, 3))
+\* C10: a received frame that adds an inbound open stream is within the own (acknowledged) limit in force before it
+P_C10_InboundWithinLocalLimit ==
+  (HasSrc /\ Clean /\ last.a = "recv" /\ Len(last.fs) = 1 /\ last.fs[1].t = "HEADERS") =>
+     LET par == 1 - MyParity(Post)
+         n0 == CountOpen(Pre, par)
+         n1 == CountOpen(Post, par)
+     IN n1 > n0 => (~SHas(Pre.ls, 3) \/ SCur(Pre.ls, 3) < 0 \/ n1 <= SCur(Pre.ls, 3))
 \* C11: every SETTINGS frame of the peer is acknowledged exactly once and reported exactly once
 IsSetNoAck(f) == f.t = "SET" /\ ~f.ack
 IsSetAck(f) == f.t = "SET" /\ f.ack
